@@ -142,14 +142,15 @@ Theorem immutable_blocks_mutators : forall T m, In m (gen_public T) -> mutates T
 Proof. apply blocks_ok_sound. vm_compute. reflexivity. Qed.
 Print Assumptions immutable_blocks_mutators.
 
-(* ... and a bound mutating method that reaches the template as data is refused by the call gate *)
-Theorem immutable_refuses_stored_mutators : forall T m, In m (gen_public T) -> mutates T m = true ->
+(* ... and a bound mutating method that reaches the template as data is refused by the call gate; the domain here is
+   every public name AND every callable dunder name (operator methods: method-wrapper objects) of the type *)
+Theorem immutable_refuses_stored_mutators : forall T m, In m (gen_names T) -> mutates T m = true ->
   immutable_is_safe_callable gen_spec T m = false.
 Proof. apply calls_ok_sound. vm_compute. reflexivity. Qed.
 Print Assumptions immutable_refuses_stored_mutators.
 
 (* ... in every stored form: bound, unbound (the type's method descriptor), wrapped in functools.partial *)
-Theorem immutable_refuses_every_stored_form : forall r T m, ref_target r = Some (T, m) -> In m (gen_public T) ->
+Theorem immutable_refuses_every_stored_form : forall r T m, ref_target r = Some (T, m) -> In m (gen_names T) ->
   mutates T m = true -> immutable_safe_ref gen_spec r = false.
 Proof.
   intros r T m Ht Hin Hmut. rewrite (safe_ref_by_target gen_spec r T m Ht).
@@ -158,7 +159,7 @@ Qed.
 
 (* the domain is not empty: every type has a public mutating method, and a non-mutating one
    that stays available *)
-Theorem domain_nonvacuous : forallb (fun T => existsb (mutates T) (gen_public T)
+Theorem domain_nonvacuous : forallb (fun T => existsb (mutates T) (gen_public T) && existsb (mutates T) (gen_dunder T)
     && existsb (fun m => negb (mutates T m) && immutable_is_safe_attribute gen_tables gen_spec T m) (gen_public T))
   all_btypes = true.
 Proof. vm_compute. reflexivity. Qed.
@@ -214,7 +215,8 @@ def observe_methods(public):
     observed[(T, m)] = (mutated_any, [indices of accepted argument tuples (mutating first)])"""
     observed = {}
     for T, names in public.items():
-        for m in names:
+        # ... and the operator / protocol methods (dunder names), reachable as stored method-wrapper references
+        for m in list(names) + [d for d in DUNDER_MUTATORS if hasattr(PY_OF[T], d)]:
             mutated = []
             accepted = []
             for ai, args in enumerate(ARGS):
@@ -314,14 +316,15 @@ def render_case(envs, mode, src, data, entry="render", place="context"):
     is_async = bool(getattr(env, "is_async", False))
     try:
         if place == "template-globals":
-            # the template keeps a live view of the dict it was given: one dict per mode, refilled per case
-            holder = envs["cache"].setdefault("holder:" + mode, {})
+            # the data lives in the template's OWN globals mapping (the first map of the ChainMap make_globals builds;
+            # since c1b86ab a copy of the dict given to from_string, before that the dict itself), refilled per case
             key = "tg:" + src
             t = envs["cache"][mode].get(key)
             if t is None:
-                t = envs["cache"][mode][key] = env.from_string(src, globals=holder)
-            holder.clear()
-            holder.update(data)
+                t = envs["cache"][mode][key] = env.from_string(src, globals={})
+            own = t.globals.maps[0]
+            own.clear()
+            own.update(data)
             args = {}
         else:
             t = envs["cache"][mode].get(src)
@@ -700,7 +703,7 @@ def run(ctx):
     for T in public:
         for m in list(public[T]) + DUNDER_MUTATORS:
             trials = observed.get((T, m), (False, []))[1][:per_method] or [(0, 0)]
-            if m in DUNDER_MUTATORS:
+            if m in DUNDER_MUTATORS and not observed.get((T, m), (False, []))[1]:
                 trials = [(8, 0), (3, 0)]
             bits = model.get((T, m))
             for idx, ((ai, variant), path, mode) in enumerate(itertools.product(trials, list(PATHS) + list(FORMAT_PATHS), ("sync", "async"))):
@@ -714,11 +717,13 @@ def run(ctx):
                     continue
                 if ctx.tier != "thorough" and (ai, variant) != trials[0] and path not in ASYNC_QUICK_PATHS:
                     continue      # quick tier: the second argument tuple only along the core paths
-                if path in HOST_REF_PATHS and (m in DUNDER_MUTATORS or not callable(getattr(PY_OF[T], m, None))):
-                    continue      # host-supplied references: the public methods of the four types
+                if path in HOST_REF_PATHS and not callable(getattr(PY_OF[T], m, None)):
+                    continue      # host-supplied references: the public methods and the operator methods (method-wrappers) of the four types
                 # a host-supplied bound method never passes through attribute access: the immutable call gate
                 # decides, by modifies_known_mutable(method.__self__, method.__name__)
                 predicted = (not bits["mkm"] if path in HOST_REF_PATHS else bits["safe"]) if bits else None
+                if path.startswith("host-type-") and m.startswith("_") and bits:
+                    predicted = False     # Cls.__name__ written in the template: the attribute access itself is refused (underscore name)
                 if "lying" in path:
                     predicted = None      # a lying name may also simply not be found (plain undefined): judged by the oracle only
                 ok = judge_method_case(ctx, envs, case, predicted,
